@@ -217,7 +217,9 @@ pub fn run_c06p() {
                             let recvv = big(recv.0) * big(p.lmax) + big(recv.1) * big(p.smax);
                             let leftover = if bd.supply == 0 { pvd.clone().max(BigInt::from(0)) } else { BigInt::from(0) };
                             // rounding slack of the pnl-factor validation (pool value in whole units of UNIT) + 2
-                            let slack = (big(ad.pools[0].0) * big(p.lmax) + big(ad.pools[0].1) * big(p.smax)) / big(1_000_000_000) + BigInt::from(2);
+                            // the theorem's epsilon (roundtrip_bound_open_positions): rounding of the max-pnl-factor validation
+                            let unit: u128 = if a.w == 64 { 1_000_000_000 } else { 100_000_000_000_000_000_000 };
+                            let slack = big(a.pools[0].0) * big(p.lmin) / big(unit) + big(a.pools[0].1) * big(p.smin) / big(unit) + BigInt::from(2);
                             if !is_fresh && has_oi { out.stat("roundtrip.stale_clocks"); }
                             else if value_out.clone() + recvv > value_in.clone() + credit.clone() + leftover.clone() + slack.clone() {
                                 out.oracle_fail("round trip (open positions) returned more than deposited + positive impact credited - fees", &req);
